@@ -238,7 +238,7 @@ class RawCANTransport(BaseTransport, scheme="can-raw"):
         return msg.arbitration_id, msg.data
 
     async def close(self) -> None:
-        pass
+        self._sock.close()
 
     async def get_idle_traffic(self, sniff_time: float) -> list[int]:
         """Listen to traffic on the bus and return list of IDs
